@@ -97,7 +97,17 @@ pub fn gen_history(pid: &str, rng: &mut Rng, uni: &Universe, persistent: bool, s
                 _ => h.push(SOp::GetAll { ns }),
             },
             "C13" => match roll {
-                0..=59 => h.push(gen_entry_op(rng, uni, doc, stats)),
+                0..=9 => {
+                    // head sets with many equal timestamps, every limit around the sizes that matter
+                    let n_heads = rng.below(7) as usize;
+                    let mut heads: Vec<([u8; 32], u64)> = (0..n_heads).map(|_| ([rng.below(9) as u8 + 1; 32], T0 + rng.below(3))).collect();
+                    heads.sort();
+                    heads.dedup_by(|a, b| a.0 == b.0);
+                    let limit = match rng.below(4) { 0 => None, _ => Some(1 + rng.below(40 * (n_heads as u64 + 1)) as usize) };
+                    h.push(SOp::HeadsEncode { heads, limit });
+                    stats.inc("heads_encode");
+                }
+                10..=59 => h.push(gen_entry_op(rng, uni, doc, stats)),
                 60..=79 => {
                     h.push(SOp::GetAll { ns });
                     h.push(SOp::Heads { ns });
